@@ -15,6 +15,9 @@ var NewPU = map[string]func() any{}
 // onto the given writer; vals are pointers to the generated record type.
 var BatchEnc = map[string]func(keys []int64, vals []any, w any) error{}
 
+// NewComplexKey returns a pointer to a fresh generated complex key type (key record + params).
+var NewComplexKey = map[string]func() any{}
+
 // Defaults returns `New<T>WithDefaultValues()` for the records that have one.
 var Defaults = map[string]func() any{}
 
